@@ -286,6 +286,9 @@ COVERED_FUNCTIONS = [
     ("src/spox/_schemas.py", "max_opset_policy"),
     ("src/spox/_inline.py", "_Inline.opset_req"), ("src/spox/_inline.py", "_Inline.to_onnx"),
     ("src/spox/_function.py", "Function.opset_req"), ("src/spox/_function.py", "Function.to_onnx_function"),
+    ("src/spox/_function.py", "to_function"), ("src/spox/_function.py", "_make_function_cls"),
+    ("src/spox/_public.py", "inline"), ("src/spox/_public.py", "build"),
+    ("src/spox/_internal_op.py", "_Introduce.opset_req"), ("src/spox/_internal_op.py", "_Introduce.to_onnx"),
     ("src/spox/_node.py", "Node.opset_req"),
     ("src/spox/_build.py", "Builder.build_main"), ("src/spox/_build.py", "Builder.compile_graph"),
 ]
